@@ -174,7 +174,11 @@ def case_strategy(tier):
     @st.composite
     def rejoin_story(draw):
         X, A, B = draw(st.permutations([0, 1, 2]))
-        ops = weave(draw, [[("sub_agent", A, X, draw(st.sampled_from(MODES)))],
+        # A may hold several callbacks on X (persistent and one-shot ones, in either order)
+        first = [("sub_agent", A, X, draw(st.sampled_from(MODES)))]
+        if draw(st.booleans()):
+            first.append(("sub_agent", A, X, draw(st.sampled_from(["cb", "oneshot", "oneshot"]))))
+        ops = weave(draw, [first,
                            [("sub_agent", B, X, draw(st.sampled_from(MODES)))] if draw(st.booleans()) else []])
         for _ in range(draw(st.integers(1, 3))):
             ops += [("unreg_agent", X, 0)]
